@@ -599,6 +599,64 @@ def stream(rep, exe, tier, seed, n, knobs, twins, tag, small_heap=None):
 
 SHRUNK = set()
 
+def detail_twin(prog):
+    """copy of prog in which every self call in tail position of the body of a function that HAS catch clauses is bound to a
+    name first (`{ let tw__r = f(…); tw__r }`), i.e. taken out of tail position.  -> (twin, number of calls moved)"""
+    q = copy.deepcopy(prog)
+    cnt = [0]
+    def tail(e, name, shadow):
+        # rewrite e (an expression in tail position); returns the new expression
+        t = e[0]
+        if t == "call" and e[1][0] == "var" and e[1][1] == name and name not in shadow:
+            cnt[0] += 1
+            return ["seq", [["let", "tw__r%d" % cnt[0], e], ["e", ["var", "tw__r%d" % cnt[0]]]]]
+        if t == "cond":
+            e[2] = tail(e[2], name, shadow); e[3] = tail(e[3], name, shadow)
+        elif t == "seq" and e[1] and e[1][-1][0] == "e":
+            sh = set(shadow)
+            for it in e[1]:
+                if it[0] in ("let", "varb"):
+                    sh.add(it[1])
+                elif it[0] == "funcs":
+                    sh.update(f["name"] for f in it[1])
+            e[1][-1][1] = tail(e[1][-1][1], name, sh)
+        elif t == "match":
+            for g in e[2]:
+                if g[0] == "grec":
+                    g[4] = tail(g[4], name, shadow)     # the marker does not see match-bound names: no shadowing
+                elif g[0] == "gitem":
+                    g[3] = tail(g[3], name, shadow)
+                else:
+                    g[1] = tail(g[1], name, shadow)
+        elif t == "iflet":
+            g = e[1]
+            if g[0] == "grec":
+                g[4] = tail(g[4], name, shadow)
+            elif g[0] == "gitem":
+                g[3] = tail(g[3], name, shadow)
+            if e[3] is not None:
+                e[3] = tail(e[3], name, shadow)
+        return e
+    def walk_funcs(node):
+        if isinstance(node, dict) and "catches" in node and "body" in node:
+            if node["catches"] and node.get("name"):
+                node["body"] = tail(node["body"], node["name"], {p["name"] for p in node["params"]})
+            walk_funcs(node["body"])
+            for c in node["catches"]:
+                walk_funcs(c[1])
+            return
+        if isinstance(node, dict):
+            for v in node.values():
+                if isinstance(v, (list, dict)):
+                    walk_funcs(v)
+        elif isinstance(node, list):
+            for x in node:
+                if isinstance(x, (list, dict)):
+                    walk_funcs(x)
+    for f in q["funcs"]:
+        walk_funcs(f)
+    return q, cnt[0]
+
 def report_disagreement(rep, exe, jid, p, args, det):
     def cls(progs):
         r = run_pairs(exe, [(i, q, args) for i, q in enumerate(progs)])
@@ -620,6 +678,16 @@ def report_disagreement(rep, exe, jid, p, args, det):
     if "unknown freevar" in ierr and later_binding_pattern(q):
         rep.finding("freevar-resolved-against-later-binding", replay_text("generated program hits the known freevar defect", q, args, r[1]))
         return
+    # known finding tail-call-under-own-catch-clauses: the disagreement disappears when the self calls in tail position of the
+    # functions WITH catch clauses are taken out of tail position (`{ let r = f(…); r }`: same value, frame kept)
+    try:
+        tw, n = detail_twin(q)
+        if n and cls([tw])[0][0] == "agree":
+            rep.finding("tail-call-under-own-catch-clauses", replay_text(
+                "generated program hits the known defect: a self tail call in a function with catch clauses (the twin with %d such call(s) moved out of tail position agrees with the reference evaluator)" % n, q, args, r[1]))
+            return
+    except Exception:
+        pass
     rep.violation("disagree_%s" % jid, replay_text(
         "the real pipeline and the reference evaluator disagree (shrunk from generated program %s)" % jid, q, args, r[1],
         extra="# stderr: %s\n" % ierr[-300:].replace("\n", " | ")), True)
